@@ -333,6 +333,49 @@ theorem exec_fuel_sufficient (memo : Bool) (S : Schema) (D : Document) (hpos : (
     (fun op hop s hs => ⟨(nodeSet_of_distinct_positions D hpos).2 op hop s hs, hL op hop s hs⟩)
     fuel hfuel opName root
 
+/-! ## 8. Total correctness on the validated domain -/
+
+/-- **exec_correct_total** — the capstone. For a schema in which no reference dangles
+    (`closedCheck`: what `schema.New` guarantees), a parsed document (distinct positions, non-empty
+    keys) whose type conditions name composite types (`condsCheck`: rule FragmentsOnCompositeTypes) and
+    whose fragment spreads form no cycle (descent certificate `lvl` of height `L`: rule
+    NoFragmentCycles), every world, operation name and fuel ≥ `L·(W+3)+3`:
+    the executor model **answers** (no `stuck`), the reference answers, and either the reference
+    refuses the request and the response is `data: null` with one path-less error, or the response's
+    data (blank slots erased — there are none when the document is validated) is the reference's, its
+    errors are sandwiched between the required and the possible ones, and every required error is
+    reported exactly once. No hypothesis about runs remains. -/
+theorem exec_correct_total (S : Schema) (D : Document)
+    (hpos : (D.nodes.map Selection.pos).Nodup) (hkeys : ∀ s ∈ D.nodes, s.keyOK)
+    (hschema : S.closedCheck = true) (hconds : D.condsCheck S = true)
+    (lvl : Selection → Nat) (hlvl : D.descentCheck lvl = true) (L : Nat)
+    (hL : ∀ op ∈ D.ops, ∀ s ∈ op.sels, lvl s < L)
+    (fuel : Nat) (hfuel : needSel S.maxWrappers L ≤ fuel) (opName : String) (root : RVal) :
+    ∃ resp, execute true S D fuel opName root = .ok resp ∧
+      ((Spec.executeRequest S D fuel opName root = .requestError ∧ resp.data = none ∧
+          ∃ e, resp.errors = [e] ∧ e.path = []) ∨
+       (∃ s, Spec.executeRequest S D fuel opName root = .executed s ∧
+          resp.data.map Json.strip = s.data ∧ s.req ⊆ₘ resp.errors ∧ resp.errors ⊆ₘ s.all ∧
+          ∀ e ∈ s.req, resp.errors.count e = 1)) := by
+  have hN := nodeSet_of_distinct_positions D hpos
+  have hops : ∀ op ∈ D.ops, ∀ s ∈ op.sels, s ∈ D.nodes ∧ lvl s < L :=
+    fun op hop s hs => ⟨hN.2 op hop s hs, hL op hop s hs⟩
+  obtain ⟨resp, hresp⟩ := execute_total true S D (· ∈ D.nodes) hN.1 (schemaClosed_of_check S hschema)
+    (condsComposite_of_check S D hconds) lvl (descends_of_check D lvl hlvl) L hops fuel hfuel opName root
+  refine ⟨resp, hresp, ?_⟩
+  rcases spec_total S D (· ∈ D.nodes) hN.1 (schemaClosed_of_check S hschema) (condsComposite_of_check S D hconds)
+    lvl (descends_of_check D lvl hlvl) L hops fuel hfuel opName root with hs | ⟨s, hs⟩
+  · left
+    obtain ⟨e, he, hp⟩ := exec_request_error true S D fuel fuel opName root hs
+    rw [he] at hresp
+    have := Except.ok.inj hresp
+    subst this
+    exact ⟨hs, rfl, e, rfl, hp⟩
+  · right
+    refine ⟨s, hs, exec_data_eq_ref_all_documents S D hpos hkeys fuel fuel opName root resp s hresp hs, ?_⟩
+    obtain ⟨h1, h2⟩ := errors_sandwich S D hpos hkeys fuel fuel opName root resp s hresp hs
+    exact ⟨h1, h2, null_explained_once S D hpos hkeys fuel fuel opName root resp s hresp hs⟩
+
 /-! ## Non-vacuity: an interface field, a merged fragment, `[T!]!` under a nullable parent under a
     non-null grandparent, one failing item -/
 
@@ -406,6 +449,17 @@ example : D.descentCheck (fun s => 100 - s.pos.col) = true := by decide
 example (fuel : Nat) (h : needSel S.maxWrappers 100 ≤ fuel) (root : RVal) :
     execute true S D fuel "" root ≠ .error .outOfFuel :=
   exec_fuel_sufficient true S D (by decide) (fun s => 100 - s.pos.col) (by decide) 100
+    (by decide) fuel h "" root
+
+/-- `exec_correct_total` applies to the example: every hypothesis is a decidable test. -/
+example (fuel : Nat) (h : needSel S.maxWrappers 100 ≤ fuel) (root : RVal) :
+    ∃ resp, execute true S D fuel "" root = .ok resp ∧
+      ((Spec.executeRequest S D fuel "" root = .requestError ∧ resp.data = none ∧
+          ∃ e, resp.errors = [e] ∧ e.path = []) ∨
+       (∃ s, Spec.executeRequest S D fuel "" root = .executed s ∧
+          resp.data.map Json.strip = s.data ∧ s.req ⊆ₘ resp.errors ∧ resp.errors ⊆ₘ s.all ∧
+          ∀ e ∈ s.req, resp.errors.count e = 1)) :=
+  exec_correct_total S D (by decide) (by decide) (by decide) (by decide) (fun s => 100 - s.pos.col) (by decide) 100
     (by decide) fuel h "" root
 
 /-- A document outside the validated shape: `nope` is not a field of `Root`. The executor leaves the
